@@ -67,6 +67,7 @@ def _variants(b, bp, mi, tree, rng, cls):
     """(variant name, message builder)"""
     yield "ctor", lambda t: bp.make(mi, t, "ctor")
     yield "attr", lambda t: bp.make(mi, t, "attr")
+    yield "inplace", lambda t: bp.make(mi, t, "inplace")
     yield "parsed", lambda t: cls().parse(bytes(bp.make(mi, t, "ctor")))
 
     def with_unknown(t):
